@@ -300,7 +300,7 @@ func TestStateCachePreservesOutcomes(t *testing.T) {
 		var obs []string
 		run := func(cache, unbounded bool, bound, sw int) mc.SchedResult {
 			res := mc.DFS(mc.SchedConfig{Body: p.body(&obs), Outcome: func(x *rt.Exec) string { return classify(x, obs) },
-				StateCache: cache, NoStateCache: !cache, Unbounded: unbounded, Bound: bound, SwitchCost: sw, Deadline: time.Now().Add(20 * time.Second)})
+				StateCache: cache, NoStateCache: !cache, Unbounded: unbounded, Bound: bound, SwitchCost: sw, Deadline: time.Now().Add(4 * time.Second)})
 			if res.EngineError != "" {
 				t.Fatalf("%s: engine error: %s", p.name, res.EngineError)
 			}
